@@ -10,7 +10,7 @@
 (*    every memo entry).                                                   *)
 (* Record kinds: reset | op | opaque | persist | query | panic.            *)
 (***************************************************************************)
-EXTENDS RobddOps, Json, IOUtils
+EXTENDS RobddOps, AdfSem, Json, IOUtils
 
 Rec == ndJsonDeserialize(IOEnv.TRACE)
 
@@ -41,7 +41,7 @@ FnSet(f) == { <<k, f[k]>> : k \in DOMAIN f }
 Dtab(ns, nv) == [h \in HandlesN(ns) |-> DenN(ns, h, nv)]
 
 TableOKD(ns, nv, D) ==
-  /\ ConstOK(ns) /\ Reduced(ns) /\ Ordered(ns, nv) /\ NoDup(ns)
+  /\ ConstOK(ns) /\ Reduced(ns) /\ Ordered(ns, nv) /\ NoDupNodes(ns)
   /\ \A h1, h2 \in HandlesN(ns) : D[h1] = D[h2] => h1 = h2
   /\ D[1] = Universe(nv) /\ D[0] = {}
 
@@ -120,6 +120,49 @@ CheckQuery(r) ==
   /\ Report(r.more_models_paths = (r.paths_memo[2] >= r.paths_memo[1])
             /\ r.more_models_models = (r.models_naive[2] >= r.models_naive[1]), r.id, "C13", "more_models")
 
+
+\* ---------------------------------------------------------------- C11 / C14: call histories on one Adf object
+TVv(vec) == [j \in DOMAIN vec |-> IF vec[j] = 1 THEN "T" ELSE IF vec[j] = 0 THEN "F" ELSE "U"]
+TVs(rs) == [i \in DOMAIN rs |-> TVv(rs[i])]
+SemKinds == {"grounded", "complete", "stable", "prefilter", "count_a", "count_b", "rew", "ng", "twoval"}
+
+SemAnswerOK(c, tvs, G, CO, ST, TW) ==
+  CASE c.c = "grounded" -> tvs = <<G>>
+    [] c.c = "complete" -> ExactlyOnce(tvs, CO) /\ Len(tvs) >= 1 /\ tvs[1] = G
+    [] c.c = "twoval"   -> ExactlyOnce(tvs, TW)
+    [] OTHER            -> ExactlyOnce(tvs, ST)
+
+CheckHist(r) ==
+  LET n  == r.n
+      tt == TTs(r.asts, n)
+      G  == Grounded(tt, n)
+      CO == Complete(tt, n)
+      TW == TwoValDirect(tt, n)
+      ST == { v \in TW : IsStable(tt, v, n) }
+      p  == r.persist
+  IN
+  /\ \A i \in DOMAIN r.calls :
+       LET c == r.calls[i] IN
+       \* (a) the answer after the history is the specified answer (a function of the ADF alone) and equals the fresh one
+       /\ Report(c.a_st = "ok" /\ c.f_st = "ok", r.id, "C11", <<"status", i, c.c>>)
+       /\ (c.c \in SemKinds /\ c.a_st = "ok" /\ c.f_st = "ok") =>
+             /\ Report(SemAnswerOK(c, TVs(c.a), G, CO, ST, TW), r.id, "C11", <<"answer-after-history", i, c.c, c.h>>)
+             /\ Report(Range(TVs(c.a)) = Range(TVs(c.f)) /\ Len(c.a) = Len(c.f), r.id, "C11", <<"differs-from-fresh", i, c.c, c.h>>)
+       /\ (c.c \in {"formulacounts", "facet"}) => Report(c.a = c.f, r.id, "C11", <<"counts-differ-from-fresh", i, c.c>>)
+       \* (b) repeating the same history reproduces the same answers in the same order, handles included
+       /\ Report(c.a = c.b /\ c.a_st = c.b_st, r.id, "C11", <<"not-deterministic", i, c.c, c.h>>)
+       \* C14: the persisted copy continues with equal answers
+       /\ (c.cp_st # "na") =>
+             /\ Report(c.cp_st = "ok" /\ (c.c \in SemKinds => Range(TVs(c.cp)) = Range(TVs(c.a)) /\ Len(c.cp) = Len(c.a))
+                        /\ (c.c \in {"formulacounts", "facet"} => c.cp = c.a),
+                        r.id, "C14", <<"copy-answer", i, c.c, c.h>>)
+             /\ (c.cp = c.a \/ PrintT(<<"DRIFT", l, r.id, "copy-handles">>))
+  /\ Report(r.final_ac = r.init_ac, r.id, "C11", "ac-modified")
+  /\ (p.how # "none") =>
+       /\ Report(p.copy_nodes = p.orig_nodes, r.id, "C14", <<"node-numbering", p.how>>)
+       /\ Report(p.copy_ac = p.orig_ac, r.id, "C14", <<"roots", p.how>>)
+       /\ (r.copy_final = r.orig_final \/ PrintT(<<"DRIFT", l, r.id, "copy-final-table">>))
+
 \* ---------------------------------------------------------------- the trace machine
 Drift(id, what) == PrintT(<<"DRIFT", l, id, what>>)
 
@@ -167,6 +210,9 @@ Next ==
             /\ Report(r.nodes = r.orig_nodes, r.id, "C14", r.how) \in BOOLEAN
             /\ AuditTables(r, D) \in BOOLEAN
             /\ Resync(r, D) /\ prev' = r.nodes
+       [] r.kind = "hist" ->
+            /\ CheckHist(r) \in BOOLEAN
+            /\ UNCHANGED <<S, prev, synced>>
        [] r.kind = "query" ->
             /\ CheckQuery(r) \in BOOLEAN
             /\ UNCHANGED <<S, prev, synced>>
